@@ -138,3 +138,29 @@ Definition ex_mismatches (palpha kalpha : list bytes) (pn kn : nat) (expected : 
   let rows := ex_rows gen_cfg palpha kalpha pn kn in
   (if Nat.eqb (length rows) (length expected) then [] else [length rows]) ++
   mismatches_from (fun p => optN_eqb (fst p) (snd p)) 0 (combine rows expected).
+
+(* ---- broker-level scripts: topology operations and publishes observed on the running broker ---- *)
+Inductive br_step :=
+| BOp (op : topo_op)
+| BPub (m : message_view) (returned : bool) (pushed : list bytes).   (* queues whose ready list gained the message *)
+
+Definition pushes_of (acts : list pub_action) : list bytes :=
+  flat_map (fun a => match a with PPush q => [q] | _ => [] end) acts.
+Definition returned_of (acts : list pub_action) : bool :=
+  existsb (fun a => match a with PReturn => true | _ => false end) acts.
+
+Fixpoint br_run (c : route_cfg) (t : topo) (steps : list br_step) (i : nat) : list nat :=
+  match steps with
+  | [] => []
+  | BOp op :: r => br_run c (topo_step c t op) r (S i)
+  | BPub m ret pushed :: r =>
+      let ok := match publish_decision c (find_exchange (t_exchanges t)) (queue_declared t) m with
+                | None => false
+                | Some acts => Bool.eqb (returned_of acts) ret && set_eqb (pushes_of acts) pushed
+                end in
+      (if ok then [] else [i]) ++ br_run c t r (S i)
+  end.
+
+(* per script: the indices of the steps where model and broker differ *)
+Definition br_mismatches (scripts : list (list br_step)) : list (list nat) :=
+  map (fun s => br_run gen_cfg (topo_init gen_cfg) s 0) scripts.
